@@ -368,6 +368,10 @@ class Reader:
         """
         file_tmp = self.file_bin.with_suffix(".cbin_tmp")
         assert not self.is_mtscomp
+        if file_tmp.with_suffix(".cbin").exists():
+            # a previous compressed copy is about to be replaced: remove it before its header (.ch) is
+            # rewritten, an interruption must not leave a .cbin that its header no longer describes
+            file_tmp.with_suffix(".cbin").unlink()
         mtscomp.compress(
             self.file_bin,
             out=file_tmp,
